@@ -111,7 +111,7 @@ impl Prop for C04P {
             }
             "near-miss-coercions" => {
                 let mut r = Rng::for_case(ctx.seed, 6, idx);
-                let c = crate::coerce::gen_coercion(&mut r, false);
+                let c = crate::coerce::gen_any(&mut r, false);
                 let src = print(&c.h, &Style::varied(&mut r), idx).text;
                 check_program(ctx, &src, false);
             }
@@ -146,7 +146,7 @@ impl Prop for C04P {
         }
         if section == "near-miss-coercions" {
             let mut r = Rng::for_case(seed, 6, idx);
-            let c = crate::coerce::gen_coercion(&mut r, false);
+            let c = crate::coerce::gen_any(&mut r, false);
             return print(&c.h, &Style::varied(&mut r), idx).text;
         }
         if section == "perturbed-programs" {
